@@ -21,3 +21,74 @@ type vaxisImage struct {
 	vx      *vaxis.Vaxis
 	vxImage vaxis.Image
 }
+
+// maxSixelSize is the largest width and height, in pixels, of a sixel image
+// the terminal accepts
+const maxSixelSize = 10000
+
+// sixelFits reports whether sixel data describes a picture of at most limit
+// pixels in either direction. The decoder allocates what the raster
+// attributes announce and loops over every repeat count, both of which are
+// chosen by the child: data that does not fit must not reach it. The same
+// goes for data with characters that are not part of the sixel alphabet (the
+// decoder reads its numbers more liberally than this function does)
+func sixelFits(data []rune, limit int) bool {
+	i := 0
+	// numbers reads a list of numbers separated by ';'
+	numbers := func() []int {
+		list := []int{0}
+		for ; i < len(data); i += 1 {
+			switch r := data[i]; {
+			case r == ';':
+				list = append(list, 0)
+			case r >= '0' && r <= '9':
+				n := list[len(list)-1]*10 + int(r-'0')
+				if n > limit {
+					n = limit + 1
+				}
+				list[len(list)-1] = n
+			default:
+				return list
+			}
+		}
+		return list
+	}
+	// position of the next sixel
+	x, y := 0, 0
+	for i < len(data) {
+		r := data[i]
+		i += 1
+		switch {
+		case r >= '?' && r <= '~':
+			x += 1
+		case r == '!':
+			// repeat introducer: a count and the sixel to repeat
+			x += numbers()[0]
+			if i < len(data) && data[i] >= '?' && data[i] <= '~' {
+				i += 1
+			}
+		case r == '"':
+			// raster attributes: aspect ratio (two numbers), width, height
+			for n, v := range numbers() {
+				if n >= 2 && v > limit {
+					return false
+				}
+			}
+		case r == '#':
+			// colour introducer
+			numbers()
+		case r == '$':
+			x = 0
+		case r == '-':
+			x = 0
+			y += 6
+		case r == '\r', r == '\n':
+		default:
+			return false
+		}
+		if x > limit || y+6 > limit {
+			return false
+		}
+	}
+	return true
+}
